@@ -7,7 +7,9 @@
 //! (`LEN` = result of phase 1 = the const generic of phase 2; one output length per harness)
 //! on symbolic pieces/separators, and compare with a reference concatenation written here
 //! (tied to the real `<[&str]>::concat` / `join` / `<[&[T]]>::concat` in the `SPEC.` harness).
-//! A handful of constant macro instances are compared with std at run time as a smoke step.
+//! A handful of constant macro instances are compared with std at run time as a smoke step in
+//! the separate module `c20m.rs`: rustc const-evaluates them while BUILDING the harness crate, so a
+//! defect in the kernels turns them into a build error (E0080) that would hide every harness here.
 //!
 //! `string::from_iter!` rides on the iterator DSL (C10, not applicable) and is NOT covered.
 use crate::hlib::*;
@@ -430,49 +432,6 @@ harness! {
         chk!(s, same_slice(st.as_bytes(), raw(&out)), "C20.array_str.as_str.is_the_array");
         chk!(s, st.len() == 4 && st.as_bytes()[0] == a.buf[0] && st.as_bytes()[3] == b.buf[1], "C20.array_str.as_str.bytes");
         cov!(s, a.buf[0] >= 0xC2 && b.buf[0] < 0x80, "C20.cover.as_str_mixed");
-    }
-}
-
-harness! {
-    /// kind=bounded tier=quick bound="SMOKE ONLY, not a proof: 6 constant str_concat! instances (rustc evaluates them) compared with std concat/collect at run time"
-    #[kani::unwind(24)]
-    fn c20_macro_instances_concat(s) {
-        use konst::string::str_concat;
-        const S: &[&str] = &["these ", "are ", "wörds"];
-        const C: &[char] = &['a', 'é', '€', '😀'];
-        chk!(s, eq_bytes(str_concat!(&["a", "é", ""]).as_bytes(), ["a", "é", ""].concat().as_bytes()), "C20.macro_instance.str_concat.literal_list");
-        chk!(s, eq_bytes(str_concat!(S).as_bytes(), S.concat().as_bytes()), "C20.macro_instance.str_concat.const_list");
-        chk!(s, eq_bytes(str_concat!(&[]).as_bytes(), b""), "C20.macro_instance.str_concat.empty_list");
-        chk!(s, eq_bytes(str_concat!(&["", ""]).as_bytes(), ["", ""].concat().as_bytes()), "C20.macro_instance.str_concat.only_empty_pieces");
-        chk!(s, eq_bytes(str_concat!(C).as_bytes(), C.iter().collect::<String>().as_bytes()), "C20.macro_instance.str_concat.chars");
-        chk!(s, eq_bytes(str_concat!(&['q'; 3]).as_bytes(), b"qqq"), "C20.macro_instance.str_concat.char_array_repeat");
-        cov!(s, true, "C20.cover.macro_instances_concat_reached");
-    }
-}
-
-harness! {
-    /// kind=bounded tier=quick bound="SMOKE ONLY, not a proof: 5 constant str_join! and 4 constant slice_concat! instances (rustc evaluates them) compared with std join/concat at run time"
-    #[kani::unwind(24)]
-    fn c20_macro_instances_join_slice(s) {
-        use konst::slice::slice_concat;
-        use konst::string::str_join;
-        const S: &[&str] = &["these", "are", "wörds"];
-        const COMMA: &str = ", ";
-        chk!(s, eq_bytes(str_join!(", ", &["foo", "bär", ""]).as_bytes(), ["foo", "bär", ""].join(", ").as_bytes()), "C20.macro_instance.str_join.str_sep");
-        chk!(s, eq_bytes(str_join!(COMMA, S).as_bytes(), S.join(COMMA).as_bytes()), "C20.macro_instance.str_join.const_args");
-        chk!(s, eq_bytes(str_join!('é', &["x", "", "y"]).as_bytes(), ["x", "", "y"].join("é").as_bytes()), "C20.macro_instance.str_join.multibyte_char_sep");
-        chk!(s, eq_bytes(str_join!("→", &["only"]).as_bytes(), ["only"].join("→").as_bytes()), "C20.macro_instance.str_join.single_piece");
-        chk!(s, eq_bytes(str_join!(",", &[]).as_bytes(), b""), "C20.macro_instance.str_join.empty_list");
-        let k1: [u16; 2] = slice_concat!(u16, &[&[1, 2], &[]]);
-        let e1: Vec<u16> = [&[1u16, 2][..], &[]].concat();
-        chk!(s, k1.len() == e1.len() && k1[0] == e1[0] && k1[1] == e1[1], "C20.macro_instance.slice_concat.with_empty_slice");
-        let k2: [u16; 0] = slice_concat!(u16, &[]);
-        let k3: [u16; 0] = slice_concat!(u16, &[&[], &[]]);
-        chk!(s, k2.len() == 0 && k3.len() == 0, "C20.macro_instance.slice_concat.empty");
-        const PIECES: &[&[u8]] = &[b"ab", b"", b"cde"];
-        let k4 = slice_concat!(u8, PIECES);
-        chk!(s, eq_bytes(&k4, &PIECES.concat()), "C20.macro_instance.slice_concat.const_list");
-        cov!(s, true, "C20.cover.macro_instances_join_slice_reached");
     }
 }
 
